@@ -80,6 +80,7 @@ SmallSpec == InitWith(Range(MCSmall)) /\ [][Next]_vars
 FullSpec  == InitWith(Range(MCFull)) /\ [][Next]_vars
 JSpec     == InitWith(Range(JScenarios)) /\ [][Next]_vars
 
+\* the enumerated scenarios, for replay against the implementation (printed from the initial states)
 EmitScenario == (phase = "run" /\ round = 1 /\ Len(stack) = 1 /\ stack[1].pc = "parse" /\ exc = "")
                   => PrintT("SCEN|" \o ToJson(S))
 =============================================================================
